@@ -83,7 +83,7 @@ func buildRects(g *graph.DGraph, r routableEdge) (rects []geom.Rect) {
 
 func rectBetweenLayers(l1, l2 *graph.Layer) geom.Rect {
 	h1, h2 := l1.Head(), l2.Head()
-	t1, t2 := l2.Tail(), l2.Tail()
+	t1, t2 := l1.Tail(), l2.Tail()
 	return geom.Rect{
 		TL: geom.P{min(h1.X, h2.X), h1.Y + h1.H},
 		BR: geom.P{max(t1.X+t1.W, t2.X+t2.W), t2.Y},
